@@ -120,7 +120,7 @@ class World(object):
         self.lines = []
         self.stats = collections.Counter()
         self.states = set()
-        self.op_index = -1
+        self._op_index = -1
         self.clock = None
         self.uuid = None
         self.disk = None
@@ -130,6 +130,23 @@ class World(object):
         self.warnings = collections.Counter()
         self.group = None      # observations that must agree across the runs of one group (see Profile.group_of)
         self._known = None
+        self._noised = set()
+
+    # Profiles announce each operation by setting world.op_index = i.  That is also the point at which the plan's background
+    # activity for that operation runs (op['noise'], see noise.py): before the operation, inside the same world.
+    @property
+    def op_index(self):
+        return self._op_index
+
+    @op_index.setter
+    def op_index(self, i):
+        self._op_index = i
+        ops = self.plan.get('ops') or []
+        if isinstance(i, int) and 0 <= i < len(ops) and isinstance(ops[i], dict) and ops[i].get('noise') is not None and i not in self._noised:
+            self._noised.add(i)
+            from . import noise
+            name = noise.run(self, ops[i]['noise'])
+            self.log(noise=name)
 
     def __enter__(self):
         from . import seams
@@ -347,6 +364,18 @@ def minimise(profile, plan, viol, budget=300):
                 break
             n = min(len(ops), n * 2)
     plan = with_ops(ops)
+    # background activity first: all of it at once, then one operation's at a time
+    if any(isinstance(o, dict) and 'noise' in o for o in plan['ops']):
+        quiet = [({k: v for k, v in o.items() if k != 'noise'} if isinstance(o, dict) else o) for o in plan['ops']]
+        if fails(with_ops(quiet)):
+            plan = with_ops(quiet)
+        else:
+            for i, o in enumerate(list(plan['ops'])):
+                if isinstance(o, dict) and 'noise' in o and tries[0] < budget:
+                    cand = list(plan['ops'])
+                    cand[i] = {k: v for k, v in o.items() if k != 'noise'}
+                    if fails(with_ops(cand)):
+                        plan = with_ops(cand)
     simp = getattr(profile, 'simplify', None)
     if simp:
         progress = True
@@ -415,6 +444,13 @@ def plan_for(profile, base_seed, tier, index):
     rng = random.Random(rs)
     plan = profile.generate(rng, index, tier)
     plan.setdefault('uuid_seed', rs & 0xffffffff)
+    # background activity between the operations (noise.py): drawn from a PRNG of its own, so the workload the profile
+    # generated for this run seed is the same with and without it
+    rate = float(os.environ.get('VERIF_NOISE_RATE', '0.07'))
+    nrng = random.Random(rs ^ 0x6e6f697365)
+    for op in plan.get('ops') or []:
+        if isinstance(op, dict) and nrng.random() < rate:
+            op['noise'] = nrng.randrange(10 ** 6)
     # plans must be plain JSON: round-trip once so that execution sees exactly what a replay file holds
     return rs, json.loads(json.dumps(plan, default=_json_default))
 
